@@ -46,3 +46,21 @@ package proto
 //@   ensures r == (p <= 9)
 //@ contract (p Precision) Duration() (r) props(C20)
 //@   ensures p <= 9 ==> r == pow10(9 - p)
+
+//@ spec func dt64lo(p Int) Int = -2208988800 * pow10(p)
+//@ spec func dt64hi(p Int) Int = ite(p == 9, 9223372036854775807, 10413792000 * pow10(p) - 1)
+
+//@ -- Documented range of DateTime64: 1900-01-01 .. 2299-12-31 (precision 9: .. 2262-04-11 23:47:16).
+//@ contract ToDateTime64(t, p) (d) props(C20)
+//@   requires p <= 9
+//@   requires -2208988800 <= t.sec && t.sec < 10413792000
+//@   requires p == 9 ==> t.sec < 9223372036
+//@   split p in 0..9
+//@   ensures d * pow10(9 - p) <= nanos(t) + pow10(9 - p) - 1 && nanos(t) - pow10(9 - p) + 1 <= d * pow10(9 - p) {resolution}
+//@   ensures nanos(t) % pow10(9 - p) == 0 ==> d * pow10(9 - p) == nanos(t) {exact}
+
+//@ contract (d DateTime64) Time(p) (t) props(C20)
+//@   requires p <= 9
+//@   requires dt64lo(p) <= d && d <= dt64hi(p)
+//@   split p in 0..9
+//@   ensures nanos(t) == d * pow10(9 - p) {instant}
